@@ -34,6 +34,11 @@ def src(node):
     return ast.unparse(node)
 
 
+def code(body):
+    """the statements of a function body without its docstring (comments are not in the AST anyway)"""
+    return [n for n in body if not (isinstance(n, ast.Expr) and isinstance(n.value, ast.Constant) and isinstance(n.value.value, str))]
+
+
 # ------------------------------------------------------------------------------------------------ add_outgrads ----
 def leaf_action(stmts, env):
     """normalise the statements of one leaf of the decision tree to (action, flag)"""
@@ -94,13 +99,14 @@ def tr_add_outgrads(tree):
 # ----------------------------------------------------------------------------------------- find_top_boxed_args ----
 def tr_find_top(tree):
     f = fun_def(tree, "find_top_boxed_args")
-    text = [src(n) for n in f.body]
-    need(len(f.body) == 5, "find_top_boxed_args has %d statements" % len(f.body))
-    need(isinstance(f.body[0], ast.Assign) and src(f.body[0].targets[0]) == "top_trace", "first statement initialises top_trace")
-    init = ast.literal_eval(f.body[0].value)
+    fb = code(f.body)
+    text = [src(n) for n in fb]
+    need(len(fb) == 5, "find_top_boxed_args has %d statements" % len(fb))
+    need(isinstance(fb[0], ast.Assign) and src(fb[0].targets[0]) == "top_trace", "first statement initialises top_trace")
+    init = ast.literal_eval(fb[0].value)
     need(isinstance(init, int), "top_trace initial value")
     need(text[1] == "top_boxes = []" and text[2] == "top_node_type = None", "initialisation of top_boxes / top_node_type")
-    loop = f.body[3]
+    loop = fb[3]
     need(isinstance(loop, ast.For) and src(loop.target) == "(argnum, arg)" and src(loop.iter) == "enumerate(args)" and len(loop.body) == 1, "the loop over the arguments")
     g = loop.body[0]
     need(isinstance(g, ast.If) and src(g.test) == "isbox(arg)" and not g.orelse and len(g.body) == 2, "the isbox guard")
